@@ -457,7 +457,16 @@ def run(tier, t0):
         ab_events = [e for e in ab_events if e[0] not in ('cell_to_boundary:f07t5in', 'low:cell_to_boundary:auto:r0:f11t6', 'cell_to_boundary:default_r7', 'compact:plain')]
     ab_tasks = [(ev, probes, {p[0]: expected[p[0]] for p in probes}, cap, (3, i)) for ev in ab_events for i in range(3 if ev[0] not in ABORT_PURE else 1)]
     ab_tasks = [t if t[0][0] not in ABORT_PURE else (t[0], t[1], t[2], t[3], None) for t in ab_tasks]
-    for name, out, skipped in many(abort_explore, ab_tasks):
+    try:
+        ab_results = many(abort_explore, ab_tasks)
+    except RuntimeError as e:
+        # a worker of this phase died (out of memory, killed).  With violations already in hand from the earlier phases the verdict is
+        # theirs and is reported; without any it stays a machinery error (exit 3), never a silent pass
+        if not acc.violations:
+            raise
+        acc.notes.append(f'fault enumeration not completed ({e}); the violations of the earlier phases are reported')
+        ab_results = []
+    for name, out, skipped in ab_results:
         acc.n['abort_points_skipped_by_occurrence_cap'] += skipped
         for kk, site, bad in out:
             acc.n['transitions'] += 1
